@@ -22,9 +22,14 @@ func (s *service) CredentialVerificationServiceInitFlow(ctx context.Context, req
 	ctx, cancel := context.WithTimeout(ctx, time.Second*10)
 	defer cancel()
 
+	accountGroup := s.getAccountGroup()
+	if accountGroup == nil {
+		return nil, errcode.ErrCode_ErrGroupMissing
+	}
+
 	// TODO: allow selection of alt-scoped keys
 	// TODO: avoid exporting account keys
-	pkRaw, err := s.accountGroupCtx.ownMemberDevice.Member().Raw()
+	pkRaw, err := accountGroup.ownMemberDevice.Member().Raw()
 	if err != nil {
 		return nil, errcode.ErrCode_ErrInvalidInput
 	}
@@ -33,7 +38,7 @@ func (s *service) CredentialVerificationServiceInitFlow(ctx context.Context, req
 		return nil, errcode.ErrCode_ErrInvalidInput
 	}
 
-	url, err := client.Init(ctx, request.Link, cryptoutil.NewFuncSigner(s.accountGroupCtx.ownMemberDevice.Member(), s.accountGroupCtx.ownMemberDevice.MemberSign))
+	url, err := client.Init(ctx, request.Link, cryptoutil.NewFuncSigner(accountGroup.ownMemberDevice.Member(), accountGroup.ownMemberDevice.MemberSign))
 	if err != nil {
 		return nil, errcode.ErrCode_ErrInternal.Wrap(err)
 	}
